@@ -93,7 +93,7 @@ A_COLLECT, A_COUNT, A_SUM, A_REDUCE, A_FOLD, A_AGGREGATE, A_FOREACH, A_COUNTBYVA
 ACTIONS = ['collect', 'count', 'sum', 'reduce', 'fold', 'aggregate', 'foreach', 'countByValue', 'stats',
            'saveAsTextFile', 'take', 'first', 'isEmpty', 'history']
 # the stats family: (A_STATS, member, 0, 0); every member is one pass through stats()
-STATS_FAMILY = ['stats', 'mean', 'max', 'min', 'stdev', 'variance', 'sampleStdev', 'sampleVariance', 'meanApprox']
+STATS_FAMILY = ['stats', 'mean', 'max', 'min', 'stdev', 'variance', 'sampleStdev', 'sampleVariance']
 # boundary fractions at which the real samplers are deterministic: never / always (Bernoulli) / never / never
 FRACS = [0.0, 1.0, 1e-300, -1.0]
 SINGLE_PASS = range(10)
@@ -101,16 +101,7 @@ SINGLE_PASS = range(10)
 # ---- element domain: ints and the falsy / sentinel-like "specials", written as codes -------------------------------
 NONE, STR, FALSE, TUP, LST = 100001, 100002, 100003, 100004, 100005
 SPECIALS = [NONE, STR, FALSE, TUP, LST]
-# numbers of large magnitude, floats, bool: written as codes too (the int functions pass them through)
-TRUE = 100018
-NUMERIC = {100011: 2 ** 52 - 1, 100012: 2 ** 52, 100013: 2 ** 52 + 1, 100014: 1700000000000000000, 100015: 2 ** 62,
-           100016: 1e300, 100017: 0.5, TRUE: True, FALSE: False}
-NUM_REV = {(type(v), v): c for c, v in NUMERIC.items()}
-UNTAGGABLE = (NONE, FALSE, TRUE)
-
-
-class EFloat(float):
-    pass
+UNTAGGABLE = (NONE, FALSE)
 
 
 def sp(c):
@@ -154,8 +145,6 @@ class EList(list):
 
 def raw(c):
     """code -> plain Python object (source data)"""
-    if c in NUMERIC:
-        return NUMERIC[c]
     return {NONE: None, STR: '', FALSE: False, TUP: (), LST: []}[c] if sp(c) else c
 
 
@@ -165,15 +154,6 @@ def obj(c, pid):
         return None
     if c == FALSE:
         return False
-    if c == TRUE:
-        return True
-    if c in NUMERIC:
-        v = NUMERIC[c]
-        if isinstance(v, float):
-            o = EFloat(v)
-            o.pid = pid
-            return o
-        return E(v, pid)
     if ispair(c):
         k, v = unpair(c)
         val = E(v, pid)
@@ -197,17 +177,13 @@ def enc(x):
         return NONE
     if x is False:
         return FALSE
-    if x is True:
-        return TRUE
-    if isinstance(x, float):
-        return NUM_REV[(float, float(x))]
     if isinstance(x, str):
         return STR
     if isinstance(x, tuple):
         return pair(enc(x[0]), enc(x[1])) if len(x) == 2 else TUP
     if isinstance(x, list):
         return LST
-    return NUM_REV.get((int, int(x)), int(x))
+    return int(x)
 
 
 # ---- function library on codes (the Gallina twins are in coq/Run/C06_run.v) -------------------------------------
@@ -289,7 +265,7 @@ class Rec:
             return x.pid
         if isinstance(x, tuple) and len(x) == 2:
             return self.pid(x[1])         # a plain (key, value) pair built by keyBy / mapValues: the value is tagged
-        if x is None or x is False or x is True:
+        if x is None or x is False:
             return self.cur
         return -1
 
@@ -448,12 +424,9 @@ def run_action(R, rdd, sa, action):
     if a == A_COLLECT:
         return [enc(x) for x in rdd.collect()]
     if a == A_COUNT:
-        return int(rdd.countApprox() if a1 else rdd.count())
+        return int(rdd.count())
     if a == A_SUM:
-        if a1 == 0:
-            return int(rdd.sum())
-        (rdd.sumApprox if a1 == 2 else rdd.sum)()      # numbers of large magnitude / floats: the value is not compared
-        return True
+        return int(rdd.sum())
     if a == A_REDUCE:
         op = OP[a1]
 
@@ -785,9 +758,7 @@ def rand_stage(rng):
 
 def rand_value(rng):
     r = rng.random()
-    if r < 0.04:
-        return rng.choice(sorted(NUMERIC))
-    if r < 0.14:
+    if r < 0.12:
         return rng.choice(SPECIALS)
     if r < 0.3:
         return 0
@@ -866,14 +837,7 @@ def single_actions(rng, src, stages, every_reducer=False):
     if special <= {NONE, STR, TUP}:
         singles.append((A_COUNTBYVALUE, 0, 0, 0))       # hashable, and no False that would collide with 0
     if not special:
-        singles.extend([(A_SUM, 0, 0, 0), (A_STATS, rng.randrange(len(STATS_FAMILY)), 0, 0), (A_COUNT, 1, 0, 0),
-                        (A_SUM, 2, 0, 0)])
-    elif special <= set(NUMERIC):
-        # numbers only (large magnitudes, floats, bools): the whole numeric family, values not compared
-        singles.extend([(A_SUM, 1, 0, 0), (A_SUM, 2, 0, 0), (A_COUNT, 1, 0, 0),
-                        (A_STATS, rng.randrange(len(STATS_FAMILY)), 0, 0), (A_STATS, rng.choice([1, 8]), 0, 0)])
-    if special & (set(NUMERIC) - {FALSE}):
-        singles = [a for a in singles if a[0] != A_SAVE or a[2] == 1]     # text lines of these are not decoded
+        singles.extend([(A_SUM, 0, 0, 0), (A_STATS, rng.randrange(len(STATS_FAMILY)), 0, 0)])
     return singles
 
 
@@ -935,21 +899,6 @@ def generate(rng, tier):
     quick = tier == 'quick'
     cases = []
     cases.extend(load_corpus())
-    # the numeric single-pass family (stats, mean, meanApprox, max, min, stdev, variance, sample*, sum, sumApprox, count,
-    # countApprox) on value magnitudes where an implementation might take another path: integral totals reaching 2**53,
-    # 1.7e18, 2**62, huge floats, mixed int/float, bools -- deterministic, at the head of the stream
-    B = sorted(NUMERIC)
-    for xs in ([B[0], B[1], B[2], B[1], B[0]], [B[3]] * 5, [B[4], B[4]], [B[6], B[1], 3], [TRUE, FALSE, 5, TRUE],
-               [B[5], B[5], 2], [B[1]] * 6, [1, 2, 3]):
-        for n in (1, 2, 3):
-            for pipe in ([], [(MAP, 0, 0)], [(FILTER, 2, 3)], [(MAP, 0, 0), (FLATMAP, 0, 2)]):
-                src = (0, xs, n)
-                numeric = [(A_STATS, m, 0, 0) for m in range(len(STATS_FAMILY))] + \
-                    [(A_SUM, 1, 0, 0), (A_SUM, 2, 0, 0), (A_COUNT, 0, 0, 0), (A_COUNT, 1, 0, 0), (A_COLLECT, 0, 0, 0)]
-                if quick:
-                    numeric = [(A_STATS, 1, 0, 0), (A_STATS, 8, 0, 0)] + rng.sample(numeric, 3)
-                for act in numeric:
-                    cases.append((src, list(pipe), act))
     # doctest-like anchors
     base = (0, [1, 2, 3, 4], 2)
     cases.append((base, [(MAP, 0, 0), (CACHE, 0, 0)], (A_FIRST, 0, 0, 0)))
@@ -1113,7 +1062,7 @@ def generate(rng, tier):
     for _ in range(25 if quick else 300):
         src = rand_src(rng, 6)
         st = fix_stages(src, [rand_stage(rng) for _ in range(rng.randint(0, 3))])
-        if not any(ispair(x) or (x in NUMERIC and x != FALSE) for x in out_values(src, st)):
+        if not any(ispair(x) for x in out_values(src, st)):
             cases.append((src, st, (A_SAVE, 0, 0, 0)))
     # random deeper pipelines, irregular partitionings, all take(n)
     budget = 1300 if quick else 36000
